@@ -194,10 +194,18 @@ class C04(Prop):
             "runs of 1-3 batches with servers that fail to start; the client's exit point is forced through the 'Sending request' log hook. "
             "c04.run: the real Run() with flags, config/suite files, --known-failing/--known-flaky patterns and this test binary re-executed "
             "as client and server OS processes (1-4 server instances, servers failing to start, client exit status 0/1); compared: "
-            "Run's ok, exit status, numbers and names. non-trivial = verdict false or a failed / could-not-run / expected count > 0")
+            "Run's ok, exit status, numbers and names. "
+            "c04.peer: the real Run() in CLIENT mode - run()'s own in-process reference server / gRPC reference server wiring, real pipes "
+            "and stderr reader - with this test binary re-executed as the client under test: it reports the scripted reply and puts a real "
+            "HTTP/1.1 request on the wire that is as the case demands or wrong in a way only the server sees (codec, second request, "
+            "compression header); Connect and gRPC-Web (the latter also against the gRPC reference server under marked names, which has no "
+            "feedback channel); every run has, per protocol, a matching result with each defect and the control. "
+            "non-trivial = verdict false or a failed / could-not-run / expected count > 0")
     trusted_base = ("Coq 8.16.1 kernel (vm_compute only in Examples)", "extraction (ExtrOcamlBasic only) + ocaml/driver.ml",
                     "vlib generators/comparator, Go overlay harness (harness/C04): parsing of the printed lines, the copy of run()'s batch "
-                    "loop used by c04.flow",
+                    "loop used by c04.flow, the child client of c04.peer (what it puts on the wire)",
+                    "the reference server's checks themselves (which requests draw feedback: C12/C13/C17); C04 models only that "
+                    "what it prints reaches the results",
                     "modelled not verified: os/exec, signals and the 3 s / 5 s / 20 s timers of process.go / client_runner.go; "
                     "cmd/connectconformance main's os.Exit(1) on !ok (exit_status is the model of it; c04.run observes Run's result)")
     assumptions = ("the selected permutations have distinct names, totalTestCount is their number and nothing is reported for a name "
@@ -207,6 +215,7 @@ class C04(Prop):
                    "report() is applied once, after the history, as Run does (report_idempotent covers calling it again)",
                    "peer feedback for a case counts as evidence that the case ran: feedback for a case without any outcome makes it a "
                    "failed (not a could-not-run) case; Run never reaches that state (every batch ends by giving each of its cases an outcome)",
+                   "peer feedback lines: test names contain no ': ' and no surrounding blanks (the stderr reader splits at the first ': ')",
                    "c04.flow/c04.run: the client ends inside the last batch only; what isRunning() reports after a clean exit "
                    "(client_runner.go whenDone stores terminated=false) is C10's finding and is not relied upon")
     level_text = ("Machine-checked proof (Coq) over ALL operation histories and any number of cases that report()'s return value, Run's "
@@ -214,9 +223,12 @@ class C04(Prop):
                   "(truth table of outcome kind x marking x feedback), that set-up / could-not-run / never-answered cases always fail the "
                   "run whatever their marking, that FAILED/INFO lines name exactly the failed / expected-failure cases and that the printed "
                   "totals count every selected case exactly once; plus the same verdict theorem for runs given as batches with servers "
-                  "that do not start and a client that ends early. The model is tied to the Go code on every check by a "
-                  "bounded-exhaustive plus random differential run at three levels (testResults, batch flow in-process, real Run() with "
-                  "child processes).")
+                  "that do not start and a client that ends early, and for client-mode runs in which the in-process reference server "
+                  "prints feedback (line format, the runner's stderr reader and which writer the feedback printer stands on are in the "
+                  "model: feedback reaches the results exactly for the cases the reference server complained about, and then fails them). "
+                  "The model is tied to the Go code on every check by a bounded-exhaustive plus random differential run at four levels "
+                  "(testResults, batch flow in-process, real Run() with child processes, real Run() in client mode against the real "
+                  "in-process reference servers).")
     level_note = ("Proved about the model; the model-to-code correspondence is sampled (exhaustive truth table for <= 3 cases, random beyond), "
                   "not proved. The batch-level model covers a sequential scripted client (one exit point, forced schedule); free-running "
                   "timing races between a dying OS process and the send loop (ErrClosedPipe vs errClosed, WaitDelay, 20 s read timeout) are "
